@@ -398,6 +398,61 @@ def agent_spec(key, style):
 GEN_STYLES = ['legacy-steps', 'legacy-in-processes', 'flow-chain', 'flow-layer', 'legacy-reaper', 'flow-divider']
 
 
+class GTag(Step):
+    defaults = {'tag': ''}
+
+    def ports_schema(self):
+        return {'v': {'n': {'_default': 0}}}
+
+    def next_update(self, timestep, states):
+        GTAG_RUNS.append((self.parameters['tag'], L.gt()))
+        return {}
+
+
+GTAG_RUNS = []
+
+
+class GStepDeleter(Process):
+    defaults = {'timestep': 1.0, 'at': 2, 'what': 'derived'}
+
+    def __init__(self, parameters=None):
+        super().__init__(parameters)
+        self.k = 0
+
+    def ports_schema(self):
+        return {'box': {'*': {}}}
+
+    def next_update(self, timestep, states):
+        self.k += 1
+        return {'box': {'_delete': [self.parameters['what']]}} if self.k == self.parameters['at'] else {}
+
+
+def check_leaf_step_delete(shape):
+    """a flow step that nothing depends on is deleted on its own; the steps IT depended on stay in the hierarchy and keep running
+    once per phase (the other direction -- deleting a step that others depend on -- is the recorded finding F-C10-orphan-dependents)"""
+    del GTAG_RUNS[:]
+    L.new_trace()
+    steps = {'base': GTag({'tag': 'base'}), 'derived': GTag({'tag': 'derived'})}
+    flow = {'base': [], 'derived': [('base',)]}
+    if shape == 'chain3':
+        steps['mid'] = GTag({'tag': 'mid'})
+        flow = {'base': [], 'mid': [('base',)], 'derived': [('mid',)]}
+    try:
+        eng = Engine(processes={'del': GStepDeleter()}, steps={'box': steps}, flow={'box': flow},
+                     topology={'del': {'box': ('box',)}, 'box': {k: {'v': ('v',)} for k in steps}}, display_info=False, emitter='null')
+        L.CUR.engine = eng
+        eng.update(4)
+    except Exception as e:
+        return ['scenario raised %s: %s' % (type(e).__name__, str(e)[:160])]
+    fails = []
+    for tag in steps:
+        times = [t for g, t in GTAG_RUNS if g == tag]
+        want = [0, 1.0, 2.0, 3.0, 4.0] if tag != 'derived' else [0, 1.0]
+        if times != want:
+            fails.append('step %s ran at %s; it is in the hierarchy for the phases at %s (only `derived` was deleted, at t=2)' % (tag, times, want))
+    return fails[:3]
+
+
 def jsonable_keys(d):
     """nested dict with leaves replaced by their class name (processes / steps are compared by place and kind)"""
     if isinstance(d, dict):
@@ -565,6 +620,8 @@ def main():
         scn = rec['scenario']
         if rec.get('kind') == 'generated':
             fails = check_generated(scn)
+        elif rec.get('kind') == 'leafdelete':
+            fails = check_leaf_step_delete(scn['leaf_delete'])
         else:
             fails = check_c05(scn) if a.prop in ('C05', 'C07', 'C10', 'C09') else check_c04(scn, n_perms)
         L.emit_result({'status': 'reproduced' if fails else 'not-reproduced', 'failed': fails})
@@ -606,6 +663,15 @@ def main():
         if fails:
             rp = L.write_replay(a.out, a.prop, 'gen%d' % gi, case, fails, kind='generated', extra={'driver': 'bounded.steps'})
             failures.append({'id': '%s.bounded.generated#%d: %s' % (a.prop, gi, fails[0][:260]), 'replay': rp})
+    if a.prop in ('C10', 'C05', 'C09'):
+        for shape in ('pair', 'chain3'):
+            if len(failures) >= 3:
+                break
+            evaluations += 1
+            fails = check_leaf_step_delete(shape)
+            if fails:
+                rp = L.write_replay(a.out, a.prop, 'leafdelete-' + shape, {'leaf_delete': shape}, fails, kind='leafdelete', extra={'driver': 'bounded.steps'})
+                failures.append({'id': '%s.bounded.leaf-step-delete[%s]: %s' % (a.prop, shape, fails[0][:260]), 'replay': rp})
     L.emit_result({'status': 'violated' if failures else 'ok', 'evaluations': evaluations * (1 if a.prop == 'C05' else n_perms),
                    'distinct_nontrivial': len(distinct), 'failures': failures, 'samples': samples,
                    'rule': 'seeded random flow DAGs (+derivers, nesting, structural variant); non-trivial = at least one '
